@@ -30,7 +30,7 @@ inductive XRes (α : Type) where
   | oserr               -- an OSError (socket.error / select.error) other than EOFError propagated
   | valerr              -- a ValueError propagated
   | other (e : Err)     -- zlib.error, struct.error
-  deriving Repr
+  deriving DecidableEq, Repr
 
 /-- which `close()` of the descriptor(s) raises, once -/
 inductive CloseFault where
